@@ -296,6 +296,164 @@ def rel_chain_oracle(line, ans, rng=None, k=1, sound=True, complete_leq=False):
     return None
 
 
+# ---------------------------------------------------------------- "lin": decomposition of linear constraints
+
+LIN_COEFS = [1, -1, 2, -2, 3, -3, 5, -5]
+
+
+def lin_histories(seed, n):
+    """short histories aimed at the decomposition of a general linear constraint into bounds
+    and difference/octagonal constraints: bounds on 2-4 variables (each side present with
+    probability 3/4, values in [-20,20]), then 1-2 linear (in)equalities with coefficients
+    in {+-1,+-2,+-3,+-5} over 1-3 variables and constants in [-40,40], then the exported
+    constraints and entailment queries of difference constraints and bounds"""
+    rng = random.Random(seed)
+    out = []
+    for _ in range(n):
+        nv = rng.randint(2, 4)
+        ops = []
+        bs = []
+        wit = [rng.randint(-30, 30) for _ in range(nv)]       # a store meant to satisfy most of the history
+        for v in rng.sample(range(nv), rng.randint(2, nv)):
+            lo = rng.randint(-20, 20); hi = rng.randint(lo, 20)
+            wit[v] = rng.randint(lo, hi)
+            if rng.random() < 0.75:
+                bs.append("C le E 1 -1 %d %d" % (v, lo))
+            if rng.random() < 0.75:
+                bs.append("C le E 1 1 %d %d" % (v, -hi))
+        if bs:
+            if rng.random() < 0.5:
+                ops.append("assume 0 %d %s" % (len(bs), " ".join(bs)))
+            else:
+                ops += ["assume 0 1 " + b for b in bs]
+        gs = []
+        for _ in range(rng.randint(1, 2)):
+            vs = sorted(rng.sample(range(nv), rng.randint(1, min(3, nv))))
+            kind = rng.choice(["le"] * 7 + ["eq"] * 2 + ["lt"])
+            cf = [rng.choice(LIN_COEFS) for _ in vs]
+            if rng.random() < 0.8:
+                # constant chosen around the witness store (slack -8..2: mostly satisfiable, sometimes tight or violated)
+                k = -sum(c * wit[v] for c, v in zip(cf, vs)) + (0 if kind == "eq" else rng.randint(-8, 2))
+                k = max(-40, min(40, k))
+            else:
+                k = rng.randint(-40, 40)
+            gs.append("C %s E %d %s%d" % (kind, len(vs), "".join("%d %d " % (c, v) for c, v in zip(cf, vs)), k))
+        if len(gs) == 2 and rng.random() < 0.3:
+            ops.append("assume 0 2 " + " ".join(gs))
+        else:
+            ops += ["assume 0 1 " + g for g in gs]
+        ops.append("q_csts 0")
+        for _ in range(rng.randint(2, 3)):
+            a, b = rng.sample(range(nv), 2)
+            if rng.random() < 0.7:
+                ops.append("q_entails 0 C le E 2 1 %d -1 %d %d" % (a, b, rng.randint(-40, 40)))
+            else:
+                ops.append("q_entails 0 C le E 1 %d %d %d" % (rng.choice([1, -1]), a, rng.randint(-30, 30)))
+        out.append("hist 2 %d ; %s" % (nv, " ; ".join(ops)))
+    return out
+
+
+_LIN_CACHE = {}
+
+
+def lin_samples(line, nsamples=1500, span=45):
+    """dense joint samples for a `lin` history: every variable is drawn from its box (the
+    unary unit constraints of the history) cut to [-span, span]; for every other constraint
+    points on and next to its boundary are added.  Returns the list, per operation, of the
+    stores that satisfy all the assumes up to it."""
+    if line in _LIN_CACHE:
+        return _LIN_CACHE[line]
+    ops = [o.split() for o in line.split(" ; ")]
+    nv = int(ops[0][2])
+    rng = random.Random(zlib.crc32(line.encode()))
+    lo = [-span] * nv; hi = [span] * nv
+    general = []
+    assumes = []
+    for o in ops[1:]:
+        if o[0] != "assume":
+            assumes.append(None)
+            continue
+        k = domhist.Tok(o); k.next(); k.next()
+        cs = [domhist.p_cst(k) for _ in range(k.nexti())]
+        assumes.append(cs)
+        for kind, (terms, c) in cs:
+            if len(terms) == 1 and abs(terms[0][0]) == 1 and kind == "le":
+                a, v = terms[0]
+                if a == 1:
+                    hi[v] = min(hi[v], -c)
+                else:
+                    lo[v] = max(lo[v], c)
+            else:
+                general.append((kind, (terms, c)))
+    pts = set()
+    if all(lo[v] <= hi[v] for v in range(nv)):
+        for _ in range(nsamples):
+            pts.add(tuple(rng.randint(lo[v], hi[v]) for v in range(nv)))
+        corners = [[lo[v], hi[v], (lo[v] + hi[v]) // 2] for v in range(nv)]
+        for _ in range(60):
+            pts.add(tuple(rng.choice(corners[v]) for v in range(nv)))
+        base = list(pts)
+        for kind, (terms, c) in general:
+            for s in rng.sample(base, min(len(base), 250)):
+                a, v = rng.choice(terms)
+                rest = sum(x * s[w] for x, w in terms if w != v) + c
+                q = -rest // a
+                for d in (-1, 0, 1):
+                    t = list(s); t[v] = q + d
+                    if -4 * span <= t[v] <= 4 * span:
+                        pts.add(tuple(t))
+    S = [p + (0, 0) for p in pts]
+    seq = []
+    for cs in assumes:
+        if cs is not None:
+            S = [s for s in S if all(domhist.holds(c, s) for c in cs)]
+        seq.append(S)
+    _LIN_CACHE[line] = seq
+    if len(_LIN_CACHE) > 5000:
+        _LIN_CACHE.clear()
+    return seq
+
+
+def lin_oracle(line, ans):
+    """(witness or None, final sample set non-empty?) for a `lin` history: all operations act
+    on register 0 and are assume / q_csts / q_entails"""
+    if ans.startswith("ABORT") or ans == "MISSING" or ans.startswith("HARNESS-ERROR"):
+        return None, False
+    ans = drop_ghost_csts(ans)
+    seq = lin_samples(line)
+    ops = [o.split() for o in line.split(" ; ")][1:]
+    answers = ans.split(" ; ")
+    nonempty = bool(seq and seq[-1])
+    for i, (o, S) in enumerate(zip(ops, seq)):
+        if i >= len(answers):
+            break
+        a = answers[i]
+        where = "step %d (%s) of: %s" % (i + 1, " ".join(o), line)
+        if o[0] == "assume":
+            st = domhist.parse_state(a)
+            if st == "bot":
+                if S:
+                    return "%s: the value is bottom but store %s is reachable by the same concrete operations" % (where, list(S[0])), nonempty
+                continue
+            for s in S:
+                for v in range(min(len(s), len(st))):
+                    if st[v] is not None and not domhist.in_itv(st[v], s[v]):
+                        return "%s: at(v%d) = %s but reachable store %s has v%d = %d" % (where, v, st[v], list(s), v, s[v]), nonempty
+        elif o[0] == "q_csts" and a.startswith("{"):
+            body = a[1:-1]
+            for c in ([domhist.parse_ans_cst(x) for x in body.split(",")] if body else []):
+                for s in S:
+                    if not domhist.holds(c, s):
+                        return "%s: exported constraint %s is violated by reachable store %s" % (where, c, list(s)), nonempty
+        elif o[0] == "q_entails" and a == "true":
+            k = domhist.Tok(o); k.next(); k.next()
+            c = domhist.p_cst(k)
+            for s in S:
+                if not domhist.holds(c, s):
+                    return "%s: entails answered true but store %s (reachable by the same concrete operations) violates it" % (where, list(s)), nonempty
+    return None, nonempty
+
+
 # ---------------------------------------------------------------- extended oracle
 
 def oracle_ext(line, ans, rng=None, checks=("at", "leq", "entails", "csts", "bot")):
